@@ -136,6 +136,19 @@ def run(chk):
                   'bytes=%d-%d' % (rng.randint(0, L - 1), rng.randint(0, 2 * L))]:
             recs.append(record(p, data, big[L][2], h, 'absent', rng.choice(['GET', 'GET', 'HEAD']), M))
             chk.count(1, ('big', h, L))
+    # one path whose content is replaced by content of another length while its mtime stays the same (rsync -t, cp -p, two
+    # writes within one timestamp tick): every response describes the bytes that are in the file NOW
+    hp = os.path.join(tmp, 'replaced.bin')
+    fixed = int(os.stat(files[13][0]).st_mtime) - 1000
+    for step, L in enumerate([50, 20, 80, 0, 33, 250, 7]):
+        data = bytes((step * 37 + i) % 251 for i in range(L))
+        with open(hp, 'wb') as fh:
+            fh.write(data)
+        os.utime(hp, (fixed, fixed))
+        for h in [None, 'bytes=0-', 'bytes=-5', 'bytes=10-', 'bytes=0-99', 'bytes=25-40']:
+            for method in ('GET', 'HEAD'):
+                recs.append(record(hp, data, float(fixed), h, rng.choice(['absent', 'absent', 'older']), method, 2 ** 20))
+                chk.count(1, ('replaced', step, h, method))
     # _file_iter_range with small buffers (the streaming loop itself)
     for _ in range(3000 if thorough else 500):
         L = rng.choice([0, 1, 2, 5, 9, 17, 64])
